@@ -106,7 +106,11 @@ func ApplyUnpackFilter(ff api.FilesetUnpackFilter, fmeta *fs.Metadata) error {
 		fmeta.Gid = uint32(setTo)
 	}
 	if follow, now, setTo := ff.Mtime(); now {
-		panic("unpack filter mtime=now not yet supported")
+		return errcat.ErrorDetailed(
+			rio.ErrUsage,
+			"unpack filter mtime=now not yet supported",
+			map[string]string{"path": fmeta.Name.String()},
+		)
 	} else if !follow {
 		fmeta.Mtime = setTo
 	}
